@@ -20,6 +20,7 @@ theorem verdict : (classify Generated.factsC08).Sound (Holds (cfgOf Generated.fa
 #print axioms refutes_of_witness
 #print axioms refutes_current
 #print axioms findings_current
+#print axioms findings_beforeFix
 #print axioms not_leg_agree_current
 #print axioms witness_float_vs_int
 #print axioms witness_wildcard_path
